@@ -31,7 +31,7 @@ func (node *tagWidthratioNode) Execute(ctx *ExecutionContext, writer TemplateWri
 	value := 0
 	if max.Float() != 0 {
 		// (a zero maximum gives 0, as in Django, not the conversion of an infinite ratio)
-		value = int(math.Round(current.Float() / max.Float() * width.Float()))
+		value = floatToInt(math.Round(current.Float() / max.Float() * width.Float()))
 	}
 
 	if node.ctxName == "" {
